@@ -79,6 +79,7 @@ func work(args []string) int {
 	core.Root = *root
 	// recursion that has no bound should end a worker quickly, not after a gigabyte of stack
 	debug.SetMaxStack(256 << 20)
+	limitMemory()
 	b, err := core.NewB(*prop, core.ParseTier(*tier), *seed, *batch, *nb, *jrn)
 	if err != nil {
 		fmt.Fprintln(os.Stderr, err)
